@@ -40,6 +40,8 @@ def _load_variants():
         m, pf = d / "meta.json", d / "patch.diff"
         if m.exists() and pf.exists():
             meta = json.loads(m.read_text())
+            if meta.get("not_decided") and not os.environ.get("VERIF_PENDING"):
+                continue  # recorded honestly: the target check answers exit 2 (not decided) on this change, neither a verdict nor a pass
             out.append({"id": f"seeded-{d.name}", "props": [meta["property"]], "expect": "fire", "edits": [], "patchfile": str(pf), "what": meta.get("summary", ""), "rules": {}})
     for d in sorted((VERIF_ROOT / "benign").glob("*/")):
         m, pf = d / "meta.json", d / "patch.diff"
